@@ -47,3 +47,62 @@ package routing
 //@   loop 1 invariant[ok]       respOK(prioritizedAction)
 //@   loop 1 invariant[noop-iff] isRespNoOp(prioritizedAction) <==> forall(j, 0, idx1, isRespNoOp(lunarActions[j]))
 //@   ensures[noop-never-displaces] isRespNoOp(prioritizedAction) <==> forall(j, 0, len(lunarActions), isRespNoOp(lunarActions[j]))
+
+// ---------------------------------------------------------------- C08: failure paths of a configuration update
+// ghost: gfailed - a failure response was sent; gok - the success response was sent (trusted: the two writers below)
+//@ ghost var gfailed bool
+//@ ghost var gok bool
+//@ extern handleError
+//@   modifies gfailed
+//@   ensures gfailed
+//@ extern SuccessResponse
+//@   modifies gok
+//@   ensures gok
+//@ extern http.Error
+//@   modifies nothing
+// decoding the request body fills the exported fields of the payload object (trusted: encoding/json sets exported fields only)
+//@ extern Decoder.Decode
+//@   modifies allof(streamconfig.ConfigurationPayload.Flows), allof(streamconfig.ConfigurationPayload.Quotas), allof(streamconfig.ConfigurationPayload.PathParams), allof(streamconfig.ConfigurationPayload.GatewayConfig), allof(streamconfig.ConfigurationPayload.Metrics), now
+//@ extern Mutex.TryLock
+//@   modifies nothing
+//@ iface error.Error
+//@   modifies nothing
+//@ extern json.NewDecoder
+//@   modifies nothing
+// the payload object the decoder filled is a well-formed one (maps created by NewConfigurationPayload)
+//@ extern streamconfig.NewConfigurationPayload
+//@   modifies nothing
+//@   allocates ConfigurationPayload, map
+//@   ensures payloadOK(result) && !old(allocated(result)) && allocated(result.parsedFlows) && allocated(result.parsedQuotas) && allocated(result.parsedPathParams)
+//@ extern config.NewFileSystemOperation
+//@   modifies nothing
+//@   allocates FileSystemOperation, FileSystemBackUp, map
+//@   ensures result != nil && !old(allocated(result))
+// reloading the flows (validation, new stream, metrics) may fail or succeed; it does not touch the managed files
+//@ extern HandlingDataManager.reloadFlows
+//@   modifies allof(HandlingDataManager.stream), allof(HandlingDataManager.flowValidator), now
+//@   ensures forall(p, string, fsdom[p] == old(fsdom)[p] && fsys[p] == old(fsys)[p]) && gfailed == old(gfailed) && gok == old(gok) && grestoreOK == old(grestoreOK)
+
+// the managed files are byte-for-byte what they were when the handler started
+//@ ghost func diskAsBefore() bool = forall(p, string, fsdom[p] == old(fsdom)[p] && (fsdom[p] ==> fsys[p] == old(fsys)[p]))
+
+// PUT /configuration: whenever a failure response is sent, the managed files are what they were before the request -
+// nothing was written yet, or the backup taken at the start was restored (unless the restore itself failed).
+//@ func (*HandlingDataManager).handleConfiguration.func1
+//@   prop C08
+//@   requires rd != nil && !gfailed && !gok
+//@   modifies heap, fsdom, fsys, gfailed, gok, grestoreOK
+//@   allocates ConfigurationPayload, FileSystemBackUp, FileSystemOperation, cell, map
+//@   ensures[rolled-back-on-failure] gfailed ==> diskAsBefore() || !grestoreOK
+//@   ensures[one-verdict] !(gok && gfailed)
+
+// PUT /apply_flows: the same guarantee for the endpoint that replaces the whole configuration.
+//@ extern FileSystemOperation.CleanAll
+//@   modifies fsdom, fsys
+//@ func (*HandlingDataManager).handleApplyFlows.func1
+//@   prop C08
+//@   requires rd != nil && !gfailed && !gok
+//@   modifies heap, fsdom, fsys, gfailed, gok, grestoreOK
+//@   allocates ConfigurationPayload, FileSystemBackUp, FileSystemOperation, cell, map
+//@   ensures[rolled-back-on-failure] gfailed ==> diskAsBefore() || !grestoreOK
+//@   ensures[one-verdict] !(gok && gfailed)
